@@ -231,14 +231,19 @@ def run_real_e2e(spec):
     argv = ["--freq", "512:1024"] + list(spec["argv"])
     if len(spec["ranks"]) > 1 and not spec.get("allreduce"):
         argv.append("-M")
+    # the files are named after the -o argument: <output>_summary.csv / <output>_active.csv, also when the output
+    # name carries further dot-separated tags (resnet.bs1.json -> resnet.bs1_summary.csv)
+    out_name = spec.get("out", "out.json")
+    stem = out_name[:-len(".json")]
+    fs, fa = f"{stem}_summary.csv", f"{stem}_active.csv"
     with contextlib.redirect_stdout(io.StringIO()):
-        r = stage.e2e(argv, files, want_files=["out_summary.csv", "out_active.csv"])
+        r = stage.e2e(argv, files, want_files=[fs, fa], out_name=out_name)
     res = {"err": "ok" if (r["rc"] == 0 and not r["error"]) else f"other:{r['rc']}:{r['error']}",
            "files": None, "perr": None, "slices": []}
     if res["err"] == "ok":
         res["slices"] = slices_of(r["events"] or [])
-        if "out_summary.csv" in r["files"] and "out_active.csv" in r["files"]:
-            res["files"], res["perr"] = parse_files(r["files"]["out_summary.csv"], r["files"]["out_active.csv"])
+        if fs in r["files"] and fa in r["files"]:
+            res["files"], res["perr"] = parse_files(r["files"][fs], r["files"][fa])
         else:
             res["perr"] = "missing file: " + str(r["listing"])
     return res
@@ -509,7 +514,8 @@ E2E_ARGVS = [[], ["--keep_names"], ["--flow"], ["--disable_tb"], ["--keep_prep"]
 def rand_e2e(rng, i):
     R = rng.choice([1, 1, 2, 3])
     spec = {"kind": "e2e", "ranks": [], "dev_epochs": [rng.randrange(0, 1 << 32, 512) for _ in range(R)],
-            "allreduce": R >= 2 and rng.random() < 0.6, "argv": E2E_ARGVS[i % len(E2E_ARGVS)], "tail": []}
+            "allreduce": R >= 2 and rng.random() < 0.6, "argv": E2E_ARGVS[i % len(E2E_ARGVS)], "tail": [],
+            "out": ["out.json", "out.json", "out.v2.json", "resnet.bs1.json"][i % 4]}
     names = rng.sample(E2E_NAMES, rng.randint(2, 6))
     for _ in range(R):
         ks = []
